@@ -478,4 +478,31 @@ def handle (case impl : String) : Except String (String × String) :=
       .ok (model, verdict cfg ops toks final)
     | _ => .ok ("error:impl-output-malformed", if impl.startsWith "panic" then "bad:panic" else "bad:impl-output-malformed")
 
+
+/-- End-state stream (`E~<delay>|r<item>[f] w<ms> ...`): the index passed is the item's own index, only the
+    current item changes.  Spec (c20_latest): once settled the pane shows the output of the most recent request;
+    a request without a current item (Noop) leaves the pane as it is, so when the LAST request has an item the
+    pane must show that item's output, whatever was killed or deduplicated before. -/
+def endState (case impl : String) : String :=
+  let ops := match case.splitOn "|" with
+    | [_, o] => (o.splitOn " ").filter (· ≠ "")
+    | _ => []
+  let reqs := ops.filterMap (fun o =>
+    if o.startsWith "r" then ((o.drop 1).toString.takeWhile Char.isDigit).toString.toNat? else none)
+  let want : Option String := match reqs.getLast? with
+    | some 0 => none
+    | some k => some (SkimModel.Driver.encStr s!"P_it{k}".toList)
+    | none => none
+  let model := match want with
+    | some w => "final=" ++ w
+    | none => "final=*"
+  let verdict :=
+    if impl.startsWith "error" || impl.startsWith "panic" then "error"
+    else if (impl.splitOn " ").contains "settle-timeout" then "bad:preview-activity-does-not-settle"
+    else match want with
+      | none => "ok"
+      | some w => if impl == "final=" ++ w then "ok" else s!"bad:pane-does-not-show-latest-request:{impl}"
+  -- the model output equals the implementation's whenever the verdict is ok (keeps the strict comparison quiet)
+  (if verdict == "ok" then impl else model) ++ "\t" ++ verdict
+
 end SkimModel.Driver.C20
